@@ -10,7 +10,7 @@ use brush_core::verif::SimChild;
 
 use crate::world;
 
-pub const PROGRAMS: &[&str] = &["xseq", "xcat", "xhead", "xexit", "xsig", "xsleep", "xtrue", "xfalse"];
+pub const PROGRAMS: &[&str] = &["xseq", "xcat", "xhead", "xexit", "xsig", "xsleep", "xtrue", "xfalse", "xwork"];
 
 const SIGPIPE_RAW: i32 = 13;
 
@@ -40,6 +40,23 @@ fn behave(name: &str, args: &[String], mut stdin: Option<OpenFile>, mut stdout: 
         "xsleep" => {
             world::sim_sleep(num(args, 0, 1));
             exit_raw(0)
+        }
+        "xwork" => {
+            // xwork DUR K [STATUS]: a background job's work done by an external program:
+            // start marker, DUR of simulated time, one line "K" on stdout, done marker
+            let k = num(args, 1, 0);
+            world::probe_event(format!("s{k}"), 0, 1, vec![], vec![]);
+            world::sim_sleep(num(args, 0, 1));
+            if let Some(i) = stdin.as_mut() {
+                let mut buf = [0u8; 256];
+                while matches!(i.read(&mut buf), Ok(n) if n > 0) {}
+            }
+            if let Err(raw) = write_all(&mut stdout, format!("{k}\n").as_bytes()) {
+                return raw;
+            }
+            drop(stdout.take());
+            world::probe_event(format!("d{k}"), 0, 1, vec![], vec![]);
+            exit_raw(num(args, 2, 0) as u8)
         }
         "xexit" => {
             if args.get(1).is_some_and(|s| s == "drain") {
